@@ -228,7 +228,7 @@ func (p *specParser) unary() Expr {
 	t := p.peek()
 	if t.kind == "op" {
 		switch t.val {
-		case "!", "-", "*", "^":
+		case "!", "-", "*", "^", "&":
 			p.next()
 			return &EUnary{t.val, p.unary()}
 		}
